@@ -481,7 +481,8 @@ def gen_case(case_seed, profile, workdir, force_mode=None):
     'samename' (one file name in two directories, whole-piece files), 'dotted' (file / directory names containing consecutive
     dots, single metafiles and batches), 'boundary' (v1: a file of exactly k pieces followed by a file whose wholly different
     same-size decoy is enumerated before the intact copy), 'boundary-only' (the same, the decoy is the ONLY candidate of that
-    file: C14 only, C13's premise does not hold).
+    file: C14 only, C13's premise does not hold), 'absent' (v1: a piece spans two files, the later file's NAME exists nowhere
+    in the search directories, the earlier file has a wholly different same-size decoy enumerated first: C14 only).
     Everything is derived from case_seed.  Files are written under workdir.
     force_mode='cli-proc': the unpatched command line in a fresh interpreter (enumeration order of the filesystem).
     """
@@ -532,6 +533,15 @@ def gen_case(case_seed, profile, workdir, force_mode=None):
             if rng.random() < 0.5:
                 tree[tuple(c.split("/"))] = rng.randbytes(rng.choice([1, 300, pl, pl + 7]))
             pcl = {"nested" if "/" in b else "flat", "structured layout", "file of exactly k pieces followed by a file with a decoy"}
+        if profile == "absent" and i == 0:
+            kind = rng.choice(["v1", "ref1"])
+            name, single = f"tor{i}", False
+            a, b, c = rng.choice([("00_a.bin", "01_b.bin", "02_c"), ("00_d/00_a", "00_d/01_b", "50_e/00_c"), ("00_a", "50_d/00_b", "50_d/01_c")])
+            tree = {tuple(a.split("/")): rng.randbytes(rng.choice([10000, 100, pl - 1, 1, pl + 5])),
+                    tuple(b.split("/")): rng.randbytes(rng.choice([50000, 300, pl, 2 * pl + 1]))}
+            if rng.random() < 0.4:
+                tree[tuple(c.split("/"))] = rng.randbytes(rng.choice([1, 300, pl + 7]))
+            pcl = {"nested" if "/" in b else "flat", "structured layout"}
         if profile == "d28" and single:
             name, single, tree = f"tor{i}", False, {("00_a",): rng.randbytes(100), ("01_b",): rng.randbytes(pl + 200),
                                                      ("02_c",): rng.randbytes(300)}
@@ -539,7 +549,7 @@ def gen_case(case_seed, profile, workdir, force_mode=None):
             k = sorted(tree)[0]
             tree[k] = rng.randbytes(2 * pl + rng.choice([0, 1, 77]))
         t = {"name": name, "single": single, "tree": tree, "pl": pl, "kind": kind}
-        if kind == "ref1" and not single and rng.random() < 0.4 and not (boundary and i == 0):
+        if kind == "ref1" and not single and rng.random() < 0.4 and not ((boundary or profile == "absent") and i == 0):
             order = sorted(tree)
             rng.shuffle(order)
             t["order"] = order
@@ -564,16 +574,33 @@ def gen_case(case_seed, profile, workdir, force_mode=None):
         if where == "before":
             return rng.randrange(0, root + 1), ("9" if rev else "1")
         return rng.randrange(root, nroots), ("1" if rev else "9")
+    absent_li = before_absent_li = None
+    if profile == "absent":
+        # the LATER file of a piece that spans two files: its name is wanted by no other entry and is found nowhere
+        lay = torrents[0]["layout"]
+        wanted = [x["rel"][-1] for t in torrents for x in t["layout"] if x["rel"]]
+        opts = [j for j in range(1, len(lay)) if lay[j]["rel"] and lay[j]["length"] and lay[j]["offset"] % torrents[0]["pl"]
+                and lay[j - 1]["rel"] and lay[j - 1]["length"] and wanted.count(lay[j]["rel"][-1]) == 1]
+        if opts:
+            absent_li = rng.choice(opts)
+            before_absent_li = absent_li - 1
     for ti, t in enumerate(torrents):
         for li, e in enumerate(t["layout"]):
             if e["rel"] is None:
                 continue
             fname, data = e["rel"][-1], e["data"]
+            if ti == 0 and li == absent_li:
+                e["intact_at"] = None
+                case["absent_name"] = "/".join(e["rel"])
+                cl.add("candidates: a file name that exists nowhere in the search directories")
+                continue
             want_same = len(data) > 0 and rng.random() < 0.30 and n_samesize < 5
             # aimed: the file that follows a file ending exactly on a piece boundary
             aimed = bool(boundary and ti == 0 and len(data) > 0 and e["offset"] and e["offset"] % t["pl"] == 0 and
                          any(x["rel"] and x["length"] and x["offset"] + x["length"] == e["offset"] for x in t["layout"]))
-            only_decoy = aimed and profile == "boundary-only" and not case.get("only_decoy")
+            if ti == 0 and li == before_absent_li:
+                aimed = True
+            only_decoy = aimed and (profile == "boundary-only" or (profile == "absent" and rng.random() < 0.3)) and not case.get("only_decoy")
             want_same = want_same or aimed
             want_part = len(data) > t["pl"] and "v1" == t["views"][0] and \
                 ((profile == "c14" and rng.random() < 0.2) or (profile == "d27" and not case.get("partial")))
@@ -674,6 +701,8 @@ def gen_case(case_seed, profile, workdir, force_mode=None):
                 if e["rel"] is None:
                     continue
                 ds = [d for d in case["decoys"] if d["t"] == ti and d["l"] == li]
+                if not ds and e.get("intact_at") is None:
+                    continue
                 if not ds:
                     cl.add("candidates: unique")
                 for d in ds:
@@ -994,7 +1023,8 @@ def match_v1_tie(ctx, model_ok):
                 sizes = [rng.choice([0, 100, pl, pl + 1, pl - 1]) for _ in range(k)]
             else:
                 sizes = [rng.randrange(0, 7) for _ in range(k)]
-            combos = [(d, nm) for d in ("d0", "d1") for nm in ("a", "b", "c")]      # siblings in one directory, shared names
+            # siblings in one directory, shared names; now and then names that contain consecutive dots (ordinary names)
+            combos = [(d, nm) for d in ("d0", rng.choice(["d1", "d1", "d..1"])) for nm in ("a", "b", rng.choice(["c", "c", "wait....c"]))]
             rng.shuffle(combos)
             dirs, names = [c[0] for c in combos[:k]], [c[1] for c in combos[:k]]
             datas = [rng.randbytes(s) if big else bytes(rng.choice(b"xyz") for _ in range(s)) for s in sizes]
@@ -1525,7 +1555,8 @@ def match_v2_tie(ctx, model_ok):
             sizes = [rng.choice(small) for _ in range(k)]
             if big:
                 sizes[rng.randrange(k)] = rng.choice([16383, 16384, 16385, pl, pl + 1, 2 * pl + 5])
-            combos = [(d, nm) for d in ((), ("d0",), ("d1",), ("d1", "s")) for nm in ("a", "b", "c")]
+            dd, cc = rng.choice(["d1", "d1", "d..1"]), rng.choice(["c", "c", "wait....c"])       # consecutive dots: ordinary names
+            combos = [(d, nm) for d in ((), ("d0",), (dd,), (dd, "s")) for nm in ("a", "b", cc)]
             rng.shuffle(combos)
             comps = [c[0] + (c[1],) for c in combos[:k]]
             datas = [rng.randbytes(s) for s in sizes]
